@@ -433,11 +433,16 @@ def run(ctx):
                        '(poll-array methods, helpers inlined) the slot addressed by the index the descriptor had on entry is overwritten '
                        'with something that is not the descriptor, or that index is found equal to a value derived from the live count '
                        'of the array (the slot is dropped from the live range), or the descriptor had no slot / keeps its index', floor=1)
+    ctx.rule('R-C01f', 'holder agreement: the holder the kind\'s unregister removes the object from is the holder its register put it '
+                       'into, as a function of the object\'s state: for every path to the tree insert of the object\'s node (every root '
+                       'context, helpers inlined) and every path of unregister to the tree delete whose tests on the object\'s fields '
+                       'do not contradict each other, the tree designators are the same', floor=3)
     ctx.section(stale)
     ctx.section(one_shot)
     ctx.section(holders)
     ctx.section(batch_live)
     ctx.section(slot_released)
+    ctx.section(holder_agreement)
 
 
 def stale(ctx):
@@ -1203,3 +1208,363 @@ def slot_released(ctx):
             ok, det, e0 = False, 'cannot be shown: %s' % ex, None
         ctx.ob('R-C01e', 'slot-released:%s [%s]' % (rec, tag), ok, loc=un.loc, detail=det,
                path=path_to(g, e0) if (not ok and e0 is not None) else None, fn=un.q)
+
+
+# --------------------------------------------------------------------------
+# R-C01f
+# --------------------------------------------------------------------------
+
+_CONTRA = [{'==', '!='}, {'<', '>='}, {'>', '<='}, {'==', '<'}, {'==', '>'}, {'<', '>'}]
+
+
+def _atoms_contradict(a, b):
+    """two atoms (op, lhs text, rhs text) about the same object state that cannot both hold"""
+    if a[1] == b[1] and a[2] == b[2]:
+        return {a[0], b[0]} in _CONTRA
+    if a[1] == b[1] and a[0] == '==' and b[0] == '==':
+        try:
+            return int(a[2]) != int(b[2])
+        except (TypeError, ValueError):
+            return False
+    return False
+
+
+def tree_choices(g, rec, key, callee, locs=None):
+    """Which tree the node `key` of an object of kind `rec` is handed to at the calls of `callee` (iv_avl_tree_insert /
+    iv_avl_tree_delete) in the (inlined) graph g, as a function of the object's state.  Path-sensitive forward
+    analysis over alternatives, each a set of facts:
+         ('g', op, l, r)   the test `l op r` on fields of an object of the kind (pure: member reads of a pointer
+                           variable of the kind, constants, operators) holds on this path
+         ('val', x, t)     the scalar local x holds the value of the pure state expression t
+         ('pt', x, d)      the pointer local x designates the tree d
+       A fact dies when a variable it mentions is redefined or a field it mentions is stored to through any pointer.
+       Tree designators: ('var', global), ('fld', record, field) for `&X->field`, ('ptr', record, field) for a pointer
+       read from a field, ('?', text) when not understood.
+       Returns [(guards spelled with OBJ for the object whose node is passed, designator, loc)] per site and path."""
+    from ..core import subst
+    want = norm_rec(rec)
+    exprs, names_in, fields_in = {}, {}, {}
+
+    def reg(x):
+        t = canon(x)
+        if t not in exprs:
+            exprs[t] = x
+            names_in[t] = frozenset(y['name'] for y in walk(x) if y.get('k') == 'var')
+            fields_in[t] = frozenset((y.get('record'), y['field']) for y in walk(x) if y.get('k') == 'member')
+        return t
+
+    def path_ok(b):
+        b = strip(b)
+        if h01.is_localvar(b):
+            return True
+        if isinstance(b, dict) and b.get('k') == 'member':
+            return path_ok(b['base'])
+        return False
+
+    def pure_state(x):
+        """x is computed only from constants and reads of fields of a record of the kind (`o->f`, `t->embedded.f`)"""
+        has = [False]
+
+        def ok(y):
+            if isinstance(y, list):
+                return all(ok(z) for z in y)
+            if not isinstance(y, dict):
+                return True
+            k = y.get('k')
+            if k == 'member' and norm_rec(y.get('record')) == want and not y.get('trecord'):
+                has[0] = True
+                return path_ok(y['base'])
+            if k == 'var':
+                return y.get('vk') not in ('local', 'param', 'global', 'staticlocal')
+            if k in ('call', 'assign', 'incdec', 'deref', 'index', 'addr', 'stmtexpr', 'member'):
+                return False
+            return all(ok(v) for kk, v in y.items() if isinstance(v, (dict, list)) and not kk.startswith('_'))
+        return ok(x) and has[0]
+
+    def texts(f):
+        return f[2:] if f[0] == 'g' else ((f[2],) if f[0] in ('val', 'ad') else ())
+
+    def kill_name(A, n):
+        return frozenset(f for f in A if not (f[0] in ('pt', 'val', 'ad') and f[1] == n) and not any(n in names_in[t] for t in texts(f)))
+
+    def kill_fields(A, flds):
+        return frozenset(f for f in A if f[0] == 'ad' or not any(fields_in[t] & flds for t in texts(f)))
+
+    def sub(x, A):
+        vals = {f[1]: f[2] for f in A if f[0] == 'val'}
+        if not vals:
+            return x
+        return subst(x, lambda y: exprs[vals[y['name']]] if (h01.is_localvar(y) and y['name'] in vals) else None)
+
+    def guards_of(atoms):
+        out = set()
+        for (op, lc, rc_, l, r) in atoms:
+            if not isinstance(l, dict) or not pure_state(l):
+                continue
+            if isinstance(r, dict):
+                if h01.const_of(r) is not None:
+                    rt = str(h01.const_of(r))
+                elif pure_state(r):
+                    rt = reg(r)
+                else:
+                    continue
+            else:
+                rt = str(rc_)
+            if rt not in exprs:
+                exprs[rt], names_in[rt], fields_in[rt] = None, frozenset(), frozenset()
+            out.add(('g', op, reg(l), rt))
+        return out
+
+    def add_guards(A, gs):
+        """A with the guards, or None when they contradict what is known on this path"""
+        for gd in gs:
+            if any(f[0] == 'g' and _atoms_contradict(f[1:], gd[1:]) for f in A):
+                return None
+        return A | frozenset(gs)
+
+    def resolve(x, A, depth=4):
+        """[(alternative, designator)] of the tree pointer value x on the path A"""
+        a = strip(x)
+        if not isinstance(a, dict):
+            return [(A, ('?', str(a)))]
+        if a.get('k') == 'cond' and depth > 0:
+            out = []
+            for pol, br in ((True, a['a']), (False, a['b'])):
+                A2 = add_guards(A, guards_of([t for t in norm_cond(sub(a['c'], A), pol) if t[0] != 'const']))
+                if A2 is not None:
+                    out += resolve(br, A2, depth - 1)
+            return out
+        if h01.is_localvar(a):
+            ds = sorted(f[2] for f in A if f[0] == 'pt' and f[1] == a['name'])
+            if ds:
+                return [(A, ds[0])]
+            t = h01.resolve_ptr(g, a)
+            if strip(t) is not a and depth > 0:
+                return resolve(t, A, depth - 1)
+            return [(A, ('?', canon(a)))]
+        if a.get('k') == 'addr':
+            y = strip(a['e'])
+            if isinstance(y, dict) and y.get('k') == 'var' and y.get('vk') in ('global', 'staticlocal'):
+                return [(A, ('var', y['name']))]
+            lm = last_member(a['e'])
+            if lm and isinstance(y, dict) and y.get('k') == 'member':
+                return [(A, ('fld',) + tuple(lm))]
+        if a.get('k') == 'member' and last_member(a):
+            return [(A, ('ptr',) + tuple(last_member(a)))]
+        return [(A, ('?', canon(a)))]
+
+    def tr1(e, A):
+        ev = e['ev']
+        if ev == 'decl':
+            return [kill_name(A, e['name'])]
+        if ev == 'store':
+            l = strip(e['lhs'])
+            if not isinstance(l, dict):
+                return [A]
+            if l.get('k') == 'var':
+                x = l['name']
+                plain = e.get('op') == '=' and 'rhs' in e and l.get('vk') in ('local', 'param')
+                if not plain:
+                    return [kill_name(A, x)]
+                rs = resolve(e['rhs'], A)
+                if rs and all(d[0] != '?' for (_, d) in rs):
+                    # (also: x holds the address of the record `L`, `x = &t->embedded`, or is a copy of such a pointer)
+                    ad = set()
+                    r0 = strip(e['rhs'])
+                    if isinstance(r0, dict) and r0.get('k') == 'addr' and isinstance(strip(r0['e']), dict) \
+                            and strip(r0['e']).get('k') == 'member' and path_ok(r0['e']):
+                        t = reg(strip(r0['e']))
+                        if x not in names_in[t]:
+                            ad.add(('ad', x, t))
+                    elif h01.is_localvar(r0):
+                        ad |= {('ad', x, f[2]) for f in A if f[0] == 'ad' and f[1] == r0['name'] and x not in names_in[f[2]]}
+                    return [kill_name(A2, x) | {('pt', x, d)} | ad for (A2, d) in rs]
+                r2 = sub(e['rhs'], A)
+                A = kill_name(A, x)
+                if isinstance(r2, dict) and pure_state(r2):
+                    t = reg(r2)
+                    if x not in names_in[t]:
+                        A = A | {('val', x, t)}
+                return [A]
+            # the field written (through any pointer): `o->sub.f = v` writes f, not `sub` (a whole-record store
+            # `o->sub = v` names `sub`, which every read of `o->sub.f` mentions)
+            lm = last_member(e['lhs'])
+            return [kill_fields(A, {lm}) if lm else A]
+        if ev == 'call':
+            for a in e.get('args', []):
+                a = strip(a)
+                if isinstance(a, dict) and a.get('k') == 'addr' and isinstance(strip(a['e']), dict) and strip(a['e']).get('k') == 'var':
+                    A = kill_name(A, strip(a['e'])['name'])
+            return [A]
+        return [A]
+
+    memo = {}
+
+    def tr(e, S):
+        if e['ev'] not in ('decl', 'store', 'call'):
+            return S
+        out = set()
+        for A in S:
+            k = (id(e), A)
+            r = memo.get(k)
+            if r is None:
+                r = memo[k] = tr1(e, A)
+            out.update(r)
+        return frozenset(out)
+
+    def edge(blk, si, S):
+        if blk.succ[si] not in live:
+            return None             # no insert / delete of the node is reachable from there
+        k = (blk.id, si, S)
+        if k not in memo:
+            memo[k] = edge1(blk, si, S)
+        return memo[k]
+
+    def edge1(blk, si, S):
+        t = blk.term
+        if not t or t.get('cond') is None or len(blk.succ) < 2:
+            return S
+        out = set()
+        for A in S:
+            if t.get('cls') == 'SwitchStmt':
+                atoms = [(op, lc, rc_, sub(l, A), r) for (op, lc, rc_, l, r) in h01.edge_atoms(blk, si)]
+            elif t.get('cls') == 'MethodDispatch' or len(blk.succ) != 2:
+                atoms = []
+            else:
+                atoms = [a for a in norm_cond(sub(t['cond'], A), si == 0) if a[0] != 'const']
+            A2 = add_guards(A, guards_of(atoms))
+            if A2 is not None:
+                out.add(A2)
+        return frozenset(out) if out else None
+
+    def join(a, b):
+        u = a | b
+        if len(u) > 64:
+            c = None
+            for A in u:
+                c = A if c is None else (c & A)
+            return frozenset([c])
+        return u
+
+    sites = [e for e in g.events() if e['ev'] == 'call' and e.get('callee') == callee and len(e.get('args', [])) > 1
+             and h01.arg_member(g, e, 1) == key and (locs is None or e.get('loc') in locs)]
+    if not sites:
+        return []
+    preds = {}
+    for b, blk in g.blocks.items():
+        for s_ in blk.succ:
+            if s_ is not None:
+                preds.setdefault(s_, set()).add(b)
+    live = {e['_b'] for e in sites}
+    work = list(live)
+    while work:
+        for p_ in preds.get(work.pop(), ()):
+            if p_ not in live:
+                live.add(p_)
+                work.append(p_)
+    _, ev_in = forward(g, frozenset([frozenset()]), tr, join, edge=edge)
+    out = []
+    for e in sites:
+        S = ev_in.get((e['_b'], e['_i']))
+        if S is None:
+            continue            # unreachable copy
+        # the object is the record the node passed is a member of: `&o->node` (o a pointer) or `&t->embedded.node`
+        n = strip(e['args'][1])
+        if not (isinstance(n, dict) and n.get('k') == 'addr'):
+            n = strip(h01.resolve_ptr(g, n))
+        m = strip(n['e']) if isinstance(n, dict) and n.get('k') == 'addr' else None
+        if not (isinstance(m, dict) and m.get('k') == 'member'):
+            out.append((frozenset(), ('?', 'node ' + canon(e['args'][1])), e.get('loc')))
+            continue
+        oarrow, otext, onames = bool(m['arrow']), canon(strip(m['base'])), (h01.var_names(m['base']) if m['arrow'] else set())
+        OBJ = {'k': 'var', 'name': 'OBJ', 'vk': 'obj'}
+
+        for A in S:
+            for (A2, d) in resolve(e['args'][0], A):
+                ptrs = set(onames) if oarrow else {f[1] for f in A2 if f[0] == 'ad' and f[2] == otext}
+
+                def to_obj(y, ptrs=ptrs):
+                    if y.get('k') != 'member':
+                        return None
+                    if bool(y['arrow']) == oarrow and canon(strip(y['base'])) == otext:
+                        return dict(y, arrow=True, base=OBJ)
+                    if y['arrow'] and (h01.var_names(y['base']) & ptrs):
+                        return dict(y, arrow=True, base=OBJ)
+                    return None
+                gs = set()
+                for f in A2:
+                    if f[0] != 'g':
+                        continue
+                    sp = []
+                    for t in f[2:]:
+                        x = exprs[t]
+                        if x is None:
+                            sp.append(t)
+                            continue
+                        x2 = subst(x, to_obj)
+                        if any(y.get('k') == 'var' and y.get('vk') in ('local', 'param') for y in walk(x2)):
+                            sp = None           # a test about another object of the kind
+                            break
+                        sp.append(canon(x2))
+                    if sp:
+                        gs.add((f[1], sp[0], sp[1]))
+                out.append((frozenset(gs), d, e.get('loc')))
+    return out
+
+
+def holder_agreement(ctx):
+    """R-C01f.  R-C01c demands that unregister takes the object's node off *a* tree; which tree is an argument of the
+    delete, and a register may choose the tree from the object's state (a flag).  After unregister returns no tree
+    may still link the object, so the tree named at the delete must be the one named at the insert whenever the object
+    is in the same state.  Trees, nodes and the state tests are identified by role (the discovered tree holders; the
+    node's (record, field); pure tests on fields of the object), through selector helpers, cached pointers, `?:`,
+    flag variables and locals that cache a field."""
+    prog = ctx.prog
+    found = discover_holders(prog)
+    from .. import roles
+    for sig, spec in sorted(HOLDERS.items()):
+        if sig[0] != 'tree':
+            continue
+        rec, fld = sig[1], sig[2]
+        key = (rec, fld)
+        inst = 'agree:tree %s.%s' % key
+        un = prog.fn(UNREGISTER[rec]) if (rec in UNREGISTER and prog.has_fn(UNREGISTER[rec])) else None
+        try:
+            if sig not in found:
+                raise AnalysisBroken('the tree holder of the kind is no longer found')
+            if un is None:
+                raise AnalysisBroken('unregister call %s of the kind not found' % UNREGISTER.get(rec))
+            locs = {e['loc'] for (_, e) in found[sig] if e['ev'] == 'call' and e.get('callee') == 'iv_avl_tree_insert'}
+            ins = []
+            reach = set()
+            for (f, e) in found[sig]:
+                reach |= {c.q for c in roles.callers_closure(prog, f)}
+            for r in roles.roots(prog):
+                if r.q in reach:
+                    ins += tree_choices(h01.inlined(prog, r), rec, key, 'iv_avl_tree_insert', locs)
+            outs = tree_choices(h01.inlined(prog, un, method_table=None, expand_methods=True, prune=True), rec, key, 'iv_avl_tree_delete')
+            if not ins:
+                raise AnalysisBroken('no path to the tree insert of %s.%s is found in a root of the library' % key)
+            if not outs:
+                raise AnalysisBroken('%s does not reach a tree delete of %s.%s' % (un.name, rec, fld))
+            unk = [d for (_, d, _) in ins + outs if d[0] == '?']
+            if unk:
+                raise AnalysisBroken('tree argument not understood (%s)' % unk[0][1])
+        except AnalysisBroken as ex:
+            ctx.ob('R-C01f', inst, False, loc=un.loc if un else None, detail='cannot be shown: %s' % ex, fn=un.q if un else None)
+            continue
+        bad = None
+        for (g1, d1, l1) in ins:
+            for (g2, d2, l2) in outs:
+                if d1 != d2 and not any(_atoms_contradict(a, b) for a in g1 for b in g2):
+                    bad = bad or (g1, d1, l1, g2, d2, l2)
+        def show(gs):
+            return ' && '.join(sorted('%s %s %s' % (a[1], a[0], a[2]) for a in gs)) or 'any state'
+        trees = sorted({'.'.join(str(x) for x in d[1:]) for (_, d, _) in ins + outs})
+        ctx.ob('R-C01f', inst, bad is None, loc=(bad[5] if bad else un.loc),
+               detail=('inserted into %s at %s when [%s], but %s deletes it from %s when [%s]: in that state the object stays linked in '
+                       'the tree it was inserted into after unregister returns'
+                       % ('.'.join(str(x) for x in bad[1][1:]), relpath(bad[2]), show(bad[0]), un.name, '.'.join(str(x) for x in bad[4][1:]), show(bad[3])))
+               if bad else '%d insert path(s), %d delete path(s) of %s: same tree (%s) whenever the tests on the object\'s state are compatible'
+                           % (len(ins), len(outs), un.name, ', '.join(trees)), fn=un.q)
+
